@@ -212,7 +212,16 @@ pub fn find_module(
     let extension = "koto";
     let result = search_folder.join(module_name).with_extension(extension);
     if result.exists() {
-        Ok(result)
+        // The path is used as the key of the loader's and the runtime's module caches,
+        // so it has to be the same for every spelling of the module's location
+        // (e.g. `import '../shared'` from two different sub-folders).
+        canonicalize(&result).map_err(|error| {
+            ModuleLoaderErrorKind::FailedToCanonicalizePath {
+                path: result,
+                error,
+            }
+            .into()
+        })
     } else {
         // Alternatively, check for a neighboring directory with a matching name,
         // that also contains a main file.
